@@ -81,14 +81,14 @@ def main():
     #      schedule 'store before reset' of ThreadModel.brun): exact solutions marked as satisfying the threshold must carry a cost that does
     try:
         cdrv = c.build_driver("cost_driver", link_ompl=True)
-        pj = ["CRUN %s R2 empty 0 length 1.3 %d 0.3 3" % ("PRMstar" if q_ % 2 else "PRM", c.seed * 100 + q_) for q_ in range(16 if quick else 96)]
+        pj = ["CRUN %s R2 empty 0 length 1.3 %d 0.3 3" % ("PRMstar" if q_ % 2 else "PRM", c.seed * 100 + q_) for q_ in range(64 if quick else 256)]
         def run_cost(j):
             try:
                 r = subprocess.run([cdrv] + j.split(), capture_output=True, text=True, timeout=90); return j, r.returncode, r.stdout
             except subprocess.TimeoutExpired: return j, -999, ""
         t0 = time.time()
-        with cf.ThreadPoolExecutor(16) as ex: pres = list(ex.map(run_cost, pj))       # oversubscribed on purpose: the lost store needs the planning thread to be late
-        c.step("impl:prm-two-thread-solve", "%s CRUN PRM / PRMstar R2 empty ... (%d runs x 3 solves, 16 at a time)" % (cdrv, len(pj)), time.time() - t0, True)
+        with cf.ThreadPoolExecutor(32) as ex: pres = list(ex.map(run_cost, pj))       # oversubscribed on purpose: the lost store needs the planning thread to be late
+        c.step("impl:prm-two-thread-solve", "%s CRUN PRM / PRMstar R2 empty ... (%d runs x 3 solves, 32 at a time)" % (cdrv, len(pj)), time.time() - t0, True)
         for j, rcj, out in pres:
             for l in out.split("\n"):
                 t = l.split()
